@@ -531,8 +531,9 @@ func ruleEscapes(p *Program, r *Reporter) {
 		if !ok {
 			return false
 		}
+		// the lexer's current character: its one field of type rune
 		s, ok := info.Selections[sel]
-		return ok && s.Obj().Name() == "ch"
+		return ok && s.Kind() == types.FieldVal && isBasicKind(types.Int32)(s.Obj().Type()) && isNamed(s.Recv(), "lexer", "Lexer")
 	}
 	runeConst := func(e ast.Expr) (rune, bool) {
 		tv, ok := info.Types[e]
